@@ -90,4 +90,9 @@ where
             |s| s.inner.set_mss(mss)
         );
     }
+
+    #[cfg(feature = "verif")]
+    fn verif_fp(&self, now: Instant, out: &mut Vec<u64>) {
+        self.inner.verif_fp(now, out)
+    }
 }
